@@ -148,7 +148,15 @@ func c27Run(c c27Case) *eng.Fail {
 	case "copy":
 		// NewConst(b, w) with len(b) <,=,> w; then mutate b.
 		v, _ := new(big.Int).SetString(c.Val, 16)
-		src := make([]byte, len(c.Val)/2)
+		// the source is a window of a larger buffer: it has spare capacity behind it (sentinel bytes)
+		backing := make([]byte, len(c.Val)/2+int(w)+8)
+		for i := range backing {
+			backing[i] = 0xee
+		}
+		src := backing[:len(c.Val)/2]
+		for i := range src {
+			src[i] = 0
+		}
 		be := v.Bytes()
 		for i := range be {
 			if i < len(src) {
@@ -165,6 +173,11 @@ func c27Run(c c27Case) *eng.Fail {
 		copy(exp, orig)
 		if k.Width() != w || fmt.Sprintf("%x", k.Bytes()) != fmt.Sprintf("%x", exp) {
 			return &eng.Fail{Sig: "NewConst bytes", What: fmt.Sprintf("NewConst(%x,%d) = %x", orig, w, k.Bytes()), Case: c}
+		}
+		for i := len(src); i < len(backing); i++ {
+			if backing[i] != 0xee {
+				return &eng.Fail{Sig: "NewConst writes-behind-source", What: fmt.Sprintf("NewConst(%x,%d) wrote into the spare capacity of the slice it was given", orig, w), Case: c}
+			}
 		}
 		for i := range src {
 			src[i] ^= 0xff
